@@ -217,6 +217,13 @@ func contractServes(ct *vc.Contract, prop string) bool {
 			}
 		}
 	}
+	for _, cl := range ct.Steps {
+		for _, c := range cl {
+			if strings.HasPrefix(c.Label, pfx) {
+				return true
+			}
+		}
+	}
 	return false
 }
 
@@ -618,11 +625,11 @@ func (rc *runCtx) writeEvidence(prop, tier string, seed, claimed, discharged, vi
 			"solver_time_s":            round2(solverTime),
 			"load_s":                   round2(rc.loadS), "vcgen_s": round2(rc.genS), "solve_wall_s": round2(rc.solveS),
 			"total_obligations_generated": len(rc.results),
-			"unclaimed":                unclaimed,
-			"known_findings":           kfOut,
-			"contract_files":           rc.cs.Files,
-			"explanation": "obligations = claimed (baseline) verification conditions generated from the go/ssa of /repo's working tree for the functions under contract; discharged = those proved unsat by an SMT solver in this run; unclaimed groups are evaluated and reported but never counted",
-			"messages": lines,
+			"unclaimed":                   unclaimed,
+			"known_findings":              kfOut,
+			"contract_files":              rc.cs.Files,
+			"explanation":                 "obligations = claimed (baseline) verification conditions generated from the go/ssa of /repo's working tree for the functions under contract; discharged = those proved unsat by an SMT solver in this run; unclaimed groups are evaluated and reported but never counted",
+			"messages":                    lines,
 		},
 		"assumptions": assumptions,
 		"wall_s":      round2(wall),
